@@ -119,6 +119,15 @@ struct LogFn
     template <typename P> T operator()(P const& p, hep::projector<T>& proj) const { record(p); return fn(p, proj); }
 };
 
+// the callback handed to the MPI integrators (one type for the run under test and for the run that precedes it)
+template <typename Chk>
+struct LogCb
+{
+    hep::mpi_callback<Chk> inner;
+    RankLog* log;
+    bool operator()(MPI_Comm comm, Chk const& k) { log->cuts.push_back(log->recs.size()); return inner(comm, k); }
+};
+
 template <typename E> struct ename;
 template <> struct ename<std::mt19937> { static char const* get() { return "mt19937"; } };
 template <> struct ename<std::minstd_rand> { static char const* get() { return "minstd_rand"; } };
@@ -190,6 +199,7 @@ struct Schedule
     int P = 1;
     std::uint64_t seed = 0;
     bool tree = false;
+    bool badpath = false;        // the checkpoint path cannot be written (missing directory): no rank may behave differently because of it
     int gextra = 0, goffset = 0; // the communicator is ranks [goffset, goffset + P) of a global world with gextra more processes
     std::vector<int> perm(std::uint64_t salt) const
     {
@@ -310,6 +320,35 @@ void run_case(vf::Ctx& c, vf::RunCfg<T> const& cfg, std::vector<std::size_t> con
         vf::discard_limit::value() = 64ull * (total + 16) * (cfg.dims + 2) * 16;
     }
     std::vector<std::unique_ptr<Chk>> outs(P);
+    {
+        // an earlier run in the same process, through the same template instantiations, with another dimension, bin and
+        // channel count: nothing of it may carry over into the run under test (each case is self-contained this way)
+        vf::RunCfg<T> other = cfg;
+        other.user_grid = false;
+        other.user_weights = false;
+        other.bins = cfg.bins % 7 + 2;
+        other.seed = cfg.seed + 1;
+        if (cfg.kind == vf::MULTI)
+        {
+            vf::Tape wt(std::vector<std::uint64_t>{cfg.fam.dims + 1, 3, 1, 4, 1, 5, 9, 2, 6});
+            other.fam = vf::gen_pwc<T>(wt, 3, cfg.fam.channels % 3 + 1, 3);
+            other.dims = other.fam.dims;
+        }
+        else { other.dims = cfg.dims % 3 + 1; }
+        other.fn.dims = other.dims;
+        shim::World before(P);
+        std::vector<RankLog> wl(P);
+        std::vector<std::size_t> const wcalls = {static_cast<std::size_t>(P) + 1};
+        Chk const wstart = R::fresh(other);
+        RankBuf quiet;
+        std::streambuf* const o = std::cout.rdbuf(&quiet);
+        before.run([&](int rank) {
+            LogFn fn{other.fn, &wl[rank]};
+            LogCb<Chk> cb{hep::mpi_callback<Chk>(hep::callback_mode::silent, "", T(0)), &wl[rank]};
+            (void) M::run(&before, fn, other, wcalls, wstart, cb);
+        });
+        std::cout.rdbuf(o);
+    }
     shim::World world(P);
     world.set_global(sch.gextra, sch.goffset);
     for (std::size_t r = 0; r != 64; ++r)
@@ -320,7 +359,8 @@ void run_case(vf::Ctx& c, vf::RunCfg<T> const& cfg, std::vector<std::size_t> con
     }
     static hep::callback_mode const modes[] = {hep::callback_mode::silent, hep::callback_mode::verbose, hep::callback_mode::silent_and_write_chkpt,
         hep::callback_mode::verbose_and_write_chkpt};
-    std::string const file = (vf::files().cur.empty() ? std::string("/tmp/vf-c04-") + std::to_string(::getpid()) : vf::files().cur) + ".c04chk";
+    std::string const file = sch.badpath ? std::string("/nonexistent-vf-directory/run.c04chk")
+        : (vf::files().cur.empty() ? std::string("/tmp/vf-c04-") + std::to_string(::getpid()) : vf::files().cur) + ".c04chk";
     std::remove(file.c_str());
     g_tracked_file = file.substr(0, file.size() - 7); // any temporary file next to it that shares the stem counts as well
     g_openers.clear();
@@ -329,8 +369,7 @@ void run_case(vf::Ctx& c, vf::RunCfg<T> const& cfg, std::vector<std::size_t> con
     world.run([&](int rank) {
         LogFn fn{cfg.fn, &logs[rank]};
         RankLog* const log = &logs[rank];
-        hep::mpi_callback<Chk> inner(modes[mode], file, target);
-        auto cb = [inner, log](MPI_Comm comm, Chk const& k) mutable { log->cuts.push_back(log->recs.size()); return inner(comm, k); };
+        LogCb<Chk> cb{hep::mpi_callback<Chk>(modes[mode], file, target), log};
         outs[rank].reset(new Chk(M::run(&world, fn, cfg, calls, start, cb)));
     });
     std::cout.rdbuf(old);
@@ -361,7 +400,7 @@ void run_case(vf::Ctx& c, vf::RunCfg<T> const& cfg, std::vector<std::size_t> con
     std::size_t const performed = chk.results().size();
     if (performed > 0) { MPI_CHECK(OUT, c, (rb.chars[0] > 0) == verbose, MPI_SIG("root-output"), "rank 0 printed " << rb.chars[0] << " characters in mode " << mode); }
     for (int r : g_openers) { MPI_CHECK(OUT, c, r == 0, MPI_SIG("non-root-file"), "rank " << r << " opened the checkpoint file for writing"); }
-    if (writes && performed > 0)
+    if (writes && performed > 0 && !sch.badpath)
     {
         std::ifstream in(file);
         MPI_CHECK(OUT, c, in.good(), MPI_SIG("file-missing"), "no rank wrote the checkpoint file");
@@ -479,7 +518,7 @@ void run_huge(vf::Ctx& c, int kind, int P, std::uint64_t total)
     using E = counter_engine;
     std::vector<std::uint64_t> counts(P, 0);
     std::vector<std::uint64_t> endpos(P, 0);
-    std::vector<std::uint64_t> reported(P, 0);
+    std::vector<std::uint64_t> reported(P, 0), nonzero(P, 0), finite(P, 0);
     shim::World world(P);
     std::vector<std::size_t> const calls = {static_cast<std::size_t>(total)};
     c.desc << vf::type_name<T>::get() << " huge total=" << total << " P=" << P << (kind == 0 ? " mpi_plain" : kind == 1 ? " mpi_vegas" : " mpi_multi_channel");
@@ -490,16 +529,19 @@ void run_huge(vf::Ctx& c, int kind, int P, std::uint64_t total)
         {
             auto chk = hep::mpi_plain(&world, hep::make_integrand<T>(fn, 1), calls, hep::make_plain_chkpt<T, E>(E(0)), go);
             endpos[rank] = chk.generator().n; reported[rank] = chk.results().at(0).calls();
+            nonzero[rank] = chk.results().at(0).non_zero_calls(); finite[rank] = chk.results().at(0).finite_calls();
         }
         else if (kind == 1)
         {
             auto chk = hep::mpi_vegas(&world, hep::make_integrand<T>(fn, 1), calls, hep::make_vegas_chkpt<T, E>(4, T(1.5), E(0)), go);
             endpos[rank] = chk.generator().n; reported[rank] = chk.results().at(0).calls();
+            nonzero[rank] = chk.results().at(0).non_zero_calls(); finite[rank] = chk.results().at(0).finite_calls();
         }
         else
         {
             auto chk = hep::mpi_multi_channel(&world, hep::make_multi_channel_integrand<T>(fn, 1, unit_map, 1, 2), calls, hep::make_multi_channel_chkpt<T, E>(T(0), T(0.25), E(0)), go);
             endpos[rank] = chk.generator().n; reported[rank] = chk.results().at(0).calls();
+            nonzero[rank] = chk.results().at(0).non_zero_calls(); finite[rank] = chk.results().at(0).finite_calls();
         }
     });
     MPI_CHECK(ALWAYS, c, !world.hang(), MPI_SIG("hang"), world.hang_text());
@@ -512,11 +554,13 @@ void run_huge(vf::Ctx& c, int kind, int P, std::uint64_t total)
         MPI_CHECK(SHARE, c, counts[r] == expect, MPI_SIG("share"), "total " << total << ", " << P << " ranks: rank " << r << " evaluated " << counts[r] << " points, its share is " << expect);
         MPI_CHECK(POS, c, endpos[r] == total * k, MPI_SIG("end-position"), "total " << total << ": rank " << r << " ends at stream position " << endpos[r] << " instead of " << total * k);
         MPI_CHECK(DIFF, c, reported[r] == total, MPI_SIG("counters"), "calls() = " << reported[r]);
+        MPI_CHECK(DIFF, c, nonzero[r] == total && finite[r] == total, MPI_SIG("counters"), "total " << total << " calls of a non-zero finite integrand: non_zero_calls() = " << nonzero[r]
+            << ", finite_calls() = " << finite[r]);
         sum += counts[r];
     }
     MPI_CHECK(SHARE, c, sum == total, MPI_SIG("share-sum"), "the ranks evaluated " << sum << " points in total, requested " << total);
     c.sub += total;
-    c.label("total>=2^31");
+    c.label(total >= (1ull << 31) ? "total>=2^31" : "total>=2^24");
     c.nontrivial = true;
 }
 
@@ -524,6 +568,14 @@ constexpr std::uint64_t HUGE_MAGIC = 0xC16B16C16B16ull;
 
 void enumerate(vf::Enum& e)
 {
+    if (VERIF_AS == 4)
+    {
+        // counters beyond the integers T can represent (float: 2^24 + 3 calls), all three integrators, three ranks
+        if (!std::is_same<T, float>::value) { return; }
+        for (std::uint64_t kind = 0; kind != 3; ++kind) { if (!e.exec({HUGE_MAGIC, kind, 2, (1ull << 24) + 3})) { return; } }
+        e.space = "counters, per-rank shares and end positions for 2^24 + 3 calls (float)";
+        return;
+    }
     if (!(cat_on(SHARE) && cat_on(POS))) { return; }
     // 2^31 + 2 calls over three ranks (PLAIN in the quick tier; all three integrators and 2^32 + 5 in the thorough tier)
     if (!e.exec({HUGE_MAGIC, 0, 3, (1ull << 31) + 2})) { return; }
@@ -572,9 +624,10 @@ void run(vf::Ctx& c)
         sch.gextra = 1 + static_cast<int>(t.pick(6));
         sch.goffset = static_cast<int>(t.pick(static_cast<std::size_t>(sch.gextra) + 1));
     }
+    sch.badpath = t.pick(6) == 1;
     c.desc << vf::type_name<T>::get() << " P=" << sch.P << " calls=" << vf::show(calls) << " mode=" << mode << " target=" << vf::show(target) << " schedule=" << sch.seed % 100000
            << (sch.tree ? " tree-reduction" : " linear-reduction") << " engine#" << engine
-           << (sch.gextra ? " sub-communicator of a world with " + std::to_string(sch.P + sch.gextra) + " processes (offset " + std::to_string(sch.goffset) + ")" : std::string()) << ' ' << cfg.describe();
+           << (sch.badpath ? " unwritable-path" : "") << (sch.gextra ? " sub-communicator of a world with " + std::to_string(sch.P + sch.gextra) + " processes (offset " + std::to_string(sch.goffset) + ")" : std::string()) << ' ' << cfg.describe();
 #define VF_DISPATCH(EE)                                                                                          \
     {                                                                                                            \
         using GE = vf::guard_engine<EE>;                                                                         \
@@ -602,6 +655,7 @@ void run(vf::Ctx& c)
     for (auto x : calls) { if (x < static_cast<std::size_t>(sch.P)) { c.label("calls<P"); break; } }
     if (sch.P >= 9) { c.label("P>=9"); }
     if (sch.gextra) { c.label("sub-communicator"); }
+    if (sch.badpath && mode >= 2) { c.label("unwritable-checkpoint-path"); }
     if (target > T(0)) { c.label("positive-target"); }
     if (!cfg.fn.dists.empty()) { c.label("with-distributions"); }
     if (cfg.fn.family == 9) { c.label("non-finite-region"); }
